@@ -550,25 +550,106 @@ def rule_collect_outermost(ctx):
         if hx == UNPIN:
             ok = True
             why = "inside the collecting loop of unpin"
-        elif hx == P + "Local::schedule_collection":
-            ok = False
-            for p in ctx.ex.paths(prog.body(hx)):
-                calls = [i for i, e in enumerate(p.events) if e.kind == "call" and e.target == REPIN_NC]
-                if calls:
-                    ok = any(e.kind == "cond" and _cell_get(e.term, "Local.collecting") and e.value == 1
-                             for e in p.events[:calls[0]])
-            why = "only while collecting"
         elif hx == "utils::dispose_general_node":
             ok = True
-            why = "dispose runs only inside deferred functions (CW-DEFERRED-ONLY), i.e. inside collect"
+            why = "runs only inside deferred functions (CW-DEFERRED-ONLY) and itself, with no user frame on the stack: " \
+                  "pop_edges / Drop of the node have returned"
         else:
+            # anything else - schedule_collection, flush, defer, incr_manual_collection .. - is reached from user
+            # destructors and pop_edges (a dropped Rc flushes every 64th time, a full bag is pushed), which may hold a
+            # guard of their own with Snapshots (F10)
             ok = False
-            why = "unexpected caller"
-        r.instance("repin_without_collect <- %s (%s)" % (x.name, why), ok)
+            why = "reachable from user destructors"
+        r.instance("repin_without_collect <- %s (%s)" % (x.name, why[:60]), ok)
         if not ok:
-            r.violate(x.name, "repin_without_collect", "re-pins the thread mid-critical-section outside collection: a user "
-                      "snapshot could be invalidated", x.loc(bi))
+            r.violate(x.name, "repin_without_collect", "re-pins the thread in a function that user destructors and pop_edges "
+                      "reach (dropping an Rc flushes periodically; a full bag is pushed) - also while collecting: a "
+                      "destructor that holds a guard of its own loses the protection of its Snapshots", x.loc(bi))
     r.require(n, 1, "collect call paths")
+    return r
+
+
+# ------------------------------------------------------------------------------------------
+def rule_flush_schedules(ctx):
+    """Deferred functions run only from the collection loop of unpin, and that loop runs only when `must_collect` is
+    set.  So that garbage in the global queue (this thread's earlier bags, other threads', an exited thread's) is
+    eventually run by *any* surviving thread that keeps pinning and flushing, every flush - also of an empty bag - and
+    every bag overflow must schedule a collection, and a collection must try to advance the epoch."""
+    r = RuleResult("EBR-FLUSH-SCHEDULES", ["C15"],
+                   "flush always schedules a collection (also with an empty bag); a bag overflow in defer does; "
+                   "schedule_collection always sets must_collect; Guard::flush reaches Local::flush; collect tries to advance")
+    prog = ctx.prog
+    L = P + "Local::"
+    SCHED = L + "schedule_collection"
+
+    def sets_flag(e):
+        return e.kind == "call" and e.ntarget == "std::cell::Cell::set" and "Local.must_collect" in show(e.args[0]) and \
+            const_of(e.args[1]) == 1
+
+    ex = Exec(prog, inline={SCHED})
+    fb = prog.body(L + "flush")
+    r.functions.add(fb.name)
+    n = 0
+    for p in ex.paths(fb):
+        if p.exit[0] != "return":
+            continue
+        n += 1
+        r.paths += 1
+        ok = any(sets_flag(e) for e in p.events)
+        r.instance("Local::flush sets must_collect on every path", ok)
+        if not ok:
+            r.violate(fb.name, "no-schedule", "a path of flush returns without scheduling a collection: a thread whose own bag "
+                      "is empty can pin/flush/unpin forever without running the garbage other threads (or its own earlier "
+                      "flushes) left in the global queue", fb.loc(0))
+    sb = prog.body(SCHED)
+    r.functions.add(SCHED)
+    for p in ctx.ex.paths(sb):
+        if p.exit[0] != "return":
+            continue
+        ok = any(sets_flag(e) for e in p.events)
+        r.instance("schedule_collection sets must_collect on every path", ok)
+        if not ok:
+            r.violate(SCHED, "flag", "a path of schedule_collection does not set must_collect", sb.loc(0))
+    db = prog.body(L + "defer")
+    r.functions.add(db.name)
+    for p in Exec(prog, inline={SCHED}, unroll=2).paths(db):
+        if p.exit[0] != "return":
+            continue
+        pb = [i for i, e in enumerate(p.events) if e.kind == "call" and e.target == P + "Global::push_bag"]
+        if not pb:
+            continue
+        ok = any(sets_flag(e) for e in p.events[pb[-1]:])
+        r.instance("defer: a bag overflow (push_bag) is followed by scheduling a collection", ok)
+        if not ok:
+            r.violate(db.name, "overflow", "a full bag is pushed to the global queue without scheduling a collection",
+                      p.events[pb[-1]].loc())
+    gf = prog.body("ebr_impl::guard::Guard::flush")
+    r.functions.add(gf.name)
+    okg = False
+    for p in ctx.ex.paths(gf):
+        if p.exit[0] != "return":
+            continue
+        nullc = [e for e in p.events if e.kind == "cond" and _is_null_test(e)]
+        if nullc and nullc[0].value != 1:
+            continue      # unprotected guard: nothing to flush
+        ok = any(e.kind == "call" and e.target == fb.name for e in p.events)
+        okg = okg or ok
+        r.instance("Guard::flush on a protected guard calls Local::flush", ok)
+        if not ok:
+            r.violate(gf.name, "flush", "Guard::flush does not reach Local::flush", gf.loc(0))
+    cb = prog.body(P + "Global::collect")
+    r.functions.add(cb.name)
+    for p in ctx.ex.paths(cb):
+        if p.exit[0] != "return":
+            continue
+        adv = [i for i, e in enumerate(p.events) if e.kind == "call" and e.target == TRY_ADVANCE]
+        pops = [i for i, e in enumerate(p.events) if e.kind == "call" and "try_pop_if" in (e.target or "")]
+        ok = bool(adv) and (not pops or adv[0] < pops[0])
+        r.instance("collect tries to advance the epoch before popping", ok)
+        if not ok:
+            r.violate(cb.name, "advance", "a collection does not try to advance the epoch first: bags never expire when no "
+                      "thread defers", cb.loc(0))
+    r.require(n, 1, "returning paths of Local::flush")
     return r
 
 
@@ -670,7 +751,8 @@ def rule_guard_count(ctx):
             r.violate(PIN, "guard", "pin does not return a Guard for this participant", b.loc(0))
     b = prog.body(UNPIN)
     r.functions.add(UNPIN)
-    for p in ctx.ex.paths(b):
+    # the collecting loop is read unrolled, so that paths that ran a collection reach the write-back
+    for p in Exec(prog, unroll=2).paths(b):
         if p.exit[0] != "return":
             continue
         sets = [e for e in p.events if e.kind == "call" and e.ntarget == "std::cell::Cell::set"
@@ -687,8 +769,32 @@ def rule_guard_count(ctx):
         if not ok:
             r.violate(UNPIN, "count", "a path of unpin does not decrement guard_count exactly once", b.loc(0))
         clears = [(i, e) for (i, e, op, cell, base) in epoch_ops(p) if op == "store" and cell == "Local.epoch"]
-        outer = [e for e in p.events if _cmp_cell(e, "Local.guard_count", "Eq", 1)]
-        is_outer = bool(outer) and outer[0].value == 1
+        # the read whose value is written back decides; it must be made after the collection, which runs destructors
+        # that may create guards that stay alive (F11)
+        src = None
+        if sets:
+            v = sets[0].args[1]
+            if isinstance(v, tuple) and v[0] == "bin" and v[1] == "Sub" and _cell_get(v[2], "Local.guard_count"):
+                src = v[2]
+            elif const_of(v) is not None:
+                # `set(c)` justified by a test `guard_count == c + 1`: that test's read is the one relied upon
+                known = [e for e in p.events[:p.events.index(sets[0])]
+                         if _cmp_cell(e, "Local.guard_count", "Eq", const_of(v) + 1) and e.value == 1 and not e.exp]
+                if known:
+                    src = known[-1].term[2]
+        if src is not None:
+            gi = [i for i, e in enumerate(p.events) if e.kind == "call" and e.result == src]
+            ci = [i for i, e in enumerate(p.events) if e.kind == "call" and e.target == COLLECT]
+            fresh_read = not ci or (bool(gi) and gi[0] > ci[-1])
+            r.instance("unpin: the guard count written back was read after the collection", fresh_read)
+            if not fresh_read:
+                r.violate(UNPIN, "stale-count", "unpin writes back the guard count it read before running the collection: a guard "
+                          "that a destructor created during the collection and that is still alive is not counted (thread "
+                          "unpinned under a live guard, underflow when it is dropped)", sets[0].loc())
+        outer = [e for e in p.events if _cmp_cell(e, "Local.guard_count", "Eq", 1) and (src is None or e.term[2] == src)]
+        if not outer:
+            outer = [e for e in p.events if _cmp_cell(e, "Local.guard_count", "Eq", 1)]
+        is_outer = bool(outer) and outer[-1].value == 1
         ok = (len(clears) == 1) == is_outer and (not clears or clears[0][0] > p.events.index(sets[0]) if sets else False)
         r.instance("unpin: Local.epoch cleared iff outermost (outermost=%s)" % is_outer, ok)
         if not ok:
@@ -847,7 +953,8 @@ def rule_finalize_handoff(ctx):
         outer = [e for e in p.events if _cmp_cell(e, "Local.guard_count", "Eq", 1)]
         hz = [e for e in p.events if _cmp_cell(e, "Local.handle_count", "Eq", 0)]
         fin = [e for e in p.events if e.kind == "call" and e.target == FINALIZE]
-        if outer and outer[0].value == 1:
+        # (the last test decides: unpin re-reads the count after the collection, F11)
+        if outer and outer[-1].value == 1:
             if not hz:
                 r.violate(UNPIN, "finalize", "the outermost unpin does not test whether the last handle is gone", ub.loc(0))
                 continue
@@ -1467,5 +1574,38 @@ def rule_queue(ctx):
             r.instance("push returns only after push_internal succeeded", ok)
             if not ok:
                 r.violate(pu.name, "loop", "push returns although the node was not linked (element lost)", pu.loc(0))
+    # the retry wrappers: an attempt that lost the race for the head (Err) says nothing about emptiness or the predicate;
+    # `None` may be returned only as the Ok payload of the last attempt
+    nw = 0
+    for wname, inner in ((Q + "try_pop", Q + "pop_internal"), (Q + "try_pop_if", Q + "pop_if_internal")):
+        wb = prog.body(wname)
+        r.functions.add(wname)
+        exw = Exec(prog, inline=set())
+        for p in exw.paths(wb):
+            att = [(i, e) for i, e in enumerate(p.events) if e.kind == "call" and e.target == inner]
+            if p.exit[0] == "diverge":
+                continue
+            r.paths += 1
+            if not att:
+                if p.exit[0] == "return":
+                    r.violate(wname, "wrapper", "returns without an attempt", wb.loc(0))
+                continue
+            li, le = att[-1]
+            out = ctx.cas_outcome(p, le.result, li)
+            if p.exit[0] == "return":
+                nw += 1
+                ok = out == "ok" and strip(p.ret) == ("field", "0", ("variant", "Ok", le.result))
+                r.instance("%s returns the Ok payload of its last attempt" % wname.split("::")[-1], ok)
+                if not ok:
+                    r.violate(wname, "lost-race", "returns %s after an attempt that %s: a lost race for the head is reported as "
+                              "`empty / predicate failed` although the queue may hold elements that satisfy the predicate"
+                              % (show(p.ret)[:40], "lost the race (Err)" if out == "err" else "was not examined"), le.loc())
+            elif p.exit[0] == "retry":
+                ok = out == "err"
+                r.instance("%s retries exactly when the attempt lost the race" % wname.split("::")[-1], ok)
+                if not ok:
+                    r.violate(wname, "retry", "retries although the attempt succeeded (element dropped)", le.loc())
     r.require(n, 4, "pop paths with a head CAS")
+    if nw < 2 and not r.violations:
+        r.floor_failures.append("EBR-QUEUE: found %d returning paths of try_pop/try_pop_if, expected at least 2" % nw)
     return r
